@@ -13,7 +13,13 @@ use discret::verif_hooks::database::graph_database::GraphDatabaseService;
 use discret::verif_hooks::discret_mod::DiscretServices;
 use discret::verif_hooks::event_service::EventService;
 use discret::verif_hooks::peer_connection_service::{PeerConnectionMessage, PeerConnectionService};
-use discret::verif_hooks::security::random32;
+use discret::verif_hooks::database::system_entities::OwnedInvite;
+use discret::verif_hooks::network::peer_manager::TokenType;
+use discret::verif_hooks::network::ConnectionInfo;
+use discret::verif_hooks::security::{random32, HardwareFingerprint};
+use discret::verif_hooks::synchronisation::peer_outbound_service::{InboundQueryService, RemotePeerHandle};
+use discret::verif_hooks::synchronisation::{IdentityAnswer, LocalEvent, RemoteEvent};
+use std::sync::atomic::AtomicBool;
 use discret::verif_hooks::signature_verification_service::SignatureVerificationService;
 use discret::verif_hooks::synchronisation::peer_inbound_service::{LocalPeerService, QueryService};
 use discret::verif_hooks::synchronisation::room_locking_service::RoomLockService;
@@ -21,7 +27,7 @@ use discret::verif_hooks::synchronisation::{Answer, Error as SyncError, Query, Q
 use serde_json::json;
 use std::collections::{BTreeMap, HashSet, VecDeque};
 use std::sync::Arc;
-use tokio::sync::{mpsc, Mutex};
+use tokio::sync::{broadcast, mpsc, Mutex};
 use vharness::common::*;
 
 type Uid = [u8; 16];
@@ -185,21 +191,33 @@ impl CEv {
         }
     }
 }
-struct Shared { services: DiscretServices, peers: PeerConnectionService, _peer_rx: mpsc::Receiver<PeerConnectionMessage>, path: std::path::PathBuf }
+struct Shared { services: DiscretServices, peers: PeerConnectionService, _peer_rx: mpsc::Receiver<PeerConnectionMessage>, path: std::path::PathBuf,
+                /// a second instance: the remote peer whose identity the real connection loop verifies
+                remote: GraphDatabaseService, remote_key: Vec<u8>, local_key: Vec<u8> }
 async fn shared() -> Shared {
     let path: std::path::PathBuf = format!("{}/C20/inst", std::env::var("VERIF_WORK").unwrap_or("/verif/work".into())).into();
     let _ = std::fs::remove_dir_all(&path);
     std::fs::create_dir_all(&path).unwrap();
     let events = EventService::new();
     let mut tries = 0;
-    let (db, _, _) = loop {
+    let (db, local_key_of_db, _) = loop {
         match GraphDatabaseService::start("c20", "ns { Person{ name:String } }", &random32(), &random32(), path.clone(), &Configuration::default(), events.clone()).await {
             Ok(x) => break x,
             Err(e) => { tries += 1; if tries > 20 { panic!("instance does not start: {}", e); } tokio::time::sleep(std::time::Duration::from_millis(300)).await; }
         }
     };
     let (sender, rx) = mpsc::channel::<PeerConnectionMessage>(64);
-    Shared { services: DiscretServices { events, database: db, signature_verification: SignatureVerificationService::start(1) }, peers: PeerConnectionService { sender }, _peer_rx: rx, path }
+    let path_b: std::path::PathBuf = path.join("remote");
+    std::fs::create_dir_all(&path_b).unwrap();
+    let mut tries = 0;
+    let (remote, remote_key, _) = loop {
+        match GraphDatabaseService::start("c20", "ns { Person{ name:String } }", &random32(), &random32(), path_b.clone(), &Configuration::default(), EventService::new()).await {
+            Ok(x) => break x,
+            Err(e) => { tries += 1; if tries > 20 { panic!("instance does not start: {}", e); } tokio::time::sleep(std::time::Duration::from_millis(300)).await; }
+        }
+    };
+    let local_key = local_key_of_db.clone();
+    Shared { remote, remote_key, local_key, services: DiscretServices { events, database: db, signature_verification: SignatureVerificationService::start(1) }, peers: PeerConnectionService { sender }, _peer_rx: rx, path }
 }
 struct ConnState {
     tx: mpsc::UnboundedSender<Uid>, rx: Option<mpsc::UnboundedReceiver<Uid>>, inbox: VecDeque<u64>,
@@ -376,6 +394,113 @@ async fn run_conn_random(sh: &Shared, rng: &mut Rng, careless_ends: bool) -> Cas
     conn_case(if careless_ends { "conn-random-any-end" } else { "conn-random-idle-end" }, max, &evs, obs, &st, sim.broken)
 }
 
+
+// ================================================================================================
+// connection 1 as a REAL LocalPeerService::start task (handshake, select! loop, end-of-connection
+// code), on the same lock service as the played connections.  The harness is the remote peer: it
+// proves an identity (a second instance signs the challenge), announces Ready, and answers the
+// RoomList request batch by batch WITHOUT completing it: the loop stays inside the Ready handler
+// (it requests locks for every batch and takes no grant), until an error batch makes the handler
+// fail: the loop breaks and the real end-of-connection code runs (cleanup, close + drain of the
+// lock channel, disconnect).  The channel of the peer service is kept full so that the task waits in
+// `disconnect` with its lock receiver still alive while the service handles the unlocks: a grant
+// that can still be sent to this connection at that moment is lost for ever.
+// The runtime is single threaded: after each stimulus the harness yields until every task is idle.
+// ================================================================================================
+struct RealConn {
+    remote_events: mpsc::Sender<RemoteEvent>, _local_events: broadcast::Sender<LocalEvent>, _events_out: mpsc::Receiver<RemoteEvent>,
+    q_rx: mpsc::Receiver<QueryProtocol>, a_tx: mpsc::Sender<Answer>, peer_tx: mpsc::Sender<PeerConnectionMessage>, peer_rx: mpsc::Receiver<PeerConnectionMessage>,
+    _inbound_q: mpsc::Sender<QueryProtocol>, _inbound_a: mpsc::Receiver<Answer>, room_list_id: u64, ended: bool,
+}
+async fn settle() { for _ in 0..300 { tokio::task::yield_now().await; } }
+async fn open_real_conn(sh: &Shared, svc: &RoomLockService) -> Option<RealConn> {
+    let (remote_events, rx_re) = mpsc::channel::<RemoteEvent>(16);
+    let (local_tx, local_rx) = broadcast::channel::<LocalEvent>(16);
+    let (ev_tx, mut ev_rx) = mpsc::channel::<RemoteEvent>(16);
+    let (q_tx, mut q_rx) = mpsc::channel::<QueryProtocol>(64);
+    let (a_tx, a_rx) = mpsc::channel::<Answer>(64);
+    let (peer_tx, mut peer_rx) = mpsc::channel::<PeerConnectionMessage>(4);
+    let peers = PeerConnectionService { sender: peer_tx.clone() };
+    let key = Arc::new(Mutex::new(Vec::<u8>::new()));
+    let ready = Arc::new(AtomicBool::new(true));
+    let (in_q_tx, in_q_rx) = mpsc::channel::<QueryProtocol>(4);
+    let (in_a_tx, in_a_rx) = mpsc::channel::<Answer>(4);
+    let conn_id = uid_of(424242);
+    let inbound = InboundQueryService::start(HardwareFingerprint { id: [7u8; 16], name: "hw".into() }, circuit(1), conn_id,
+        RemotePeerHandle { allowed_room: HashSet::new(), db: sh.services.database.clone(), verifying_key: sh.local_key.clone(), reply: in_a_tx },
+        in_q_rx, peers.clone(), key.clone(), ready.clone());
+    let info = ConnectionInfo { endpoint_id: uid_of(1), remote_id: uid_of(2), conn_id, meeting_token: Default::default(), peer_verifying_key: sh.remote_key.clone() };
+    LocalPeerService::start(rx_re, local_rx, circuit(1), info, sh.local_key.clone(), TokenType::OwnedInvite(OwnedInvite { id: uid_of(3), room: None, authorisation: None }),
+        key, ready, svc.clone(), QueryService::start(q_tx, a_rx), ev_tx, peers, inbound, &sh.services);
+    // handshake: prove the identity of the remote instance
+    let qp = tokio::time::timeout(std::time::Duration::from_secs(8), q_rx.recv()).await.ok()??;
+    let challenge = match qp.query { Query::ProveIdentity(c) => c, _ => return None };
+    let sig = sh.remote.sign(challenge).await;
+    let peer = sh.remote.get_peer_node(sh.remote_key.clone()).await.ok()??;
+    a_tx.send(Answer { id: qp.id, success: true, complete: true, serialized: bincode::serialize(&IdentityAnswer { peer, chall_signature: sig.1 }).unwrap() }).await.ok()?;
+    // InviteAccepted, Ready (to the remote), PeerConnected
+    for _ in 0..2 { tokio::time::timeout(std::time::Duration::from_secs(8), peer_rx.recv()).await.ok()??; }
+    match tokio::time::timeout(std::time::Duration::from_secs(8), ev_rx.recv()).await.ok()?? { RemoteEvent::Ready => {} _ => return None }
+    // the remote is ready too: the loop asks for the room list and stays in that handler
+    remote_events.send(RemoteEvent::Ready).await.ok()?;
+    let qp = tokio::time::timeout(std::time::Duration::from_secs(8), q_rx.recv()).await.ok()??;
+    if !matches!(qp.query, Query::RoomList) { return None; }
+    Some(RealConn { remote_events, _local_events: local_tx, _events_out: ev_rx, q_rx, a_tx, peer_tx, peer_rx, _inbound_q: in_q_tx, _inbound_a: in_a_rx, room_list_id: qp.id, ended: false })
+}
+async fn run_loop_fixed(sh: &Shared, kind: &str, max: usize, evs: &[CEv]) -> Case {
+    let mut sim = ConnSim::new(max);
+    let mut obs = vec![]; let mut st = CStats::default();
+    let mut real = open_real_conn(sh, &sim.svc).await;
+    if real.is_none() { sim.broken = true; }
+    for e in evs {
+        let mine = matches!(e, CEv::Request(1, _) | CEv::Take(1) | CEv::Finish(1, _) | CEv::End(1));
+        if !mine { conn_event(&mut sim, sh, e, &mut obs, &mut st).await; continue; }
+        if let Some(rc) = real.as_mut() {
+            match e {
+                CEv::Request(_, rooms) if !rc.ended => {
+                    let batch: VecDeque<Uid> = rooms.iter().map(|r| uid_of(*r)).collect();
+                    let _ = rc.a_tx.send(Answer { id: rc.room_list_id, success: true, complete: false, serialized: bincode::serialize(&batch).unwrap() }).await;
+                    settle().await;
+                }
+                CEv::End(_) if !rc.ended => {
+                    st.ends += 1;
+                    // keep the task waiting in `disconnect`, its lock receiver alive
+                    while rc.peer_tx.try_send(PeerConnectionMessage::SendAnnounce()).is_ok() {}
+                    let _ = rc.a_tx.send(Answer { id: rc.room_list_id, success: false, complete: false, serialized: bincode::serialize(&SyncError::Authorisation("end".into())).unwrap() }).await;
+                    settle().await;
+                    sim.quiesce().await;      // the service handles what cleanup / the drain released ...
+                    settle().await;
+                    sim.quiesce().await;
+                    // ... then the task may finish: it must have announced its disconnection
+                    let mut seen = false;
+                    loop {
+                        match tokio::time::timeout(std::time::Duration::from_secs(8), rc.peer_rx.recv()).await {
+                            Ok(Some(PeerConnectionMessage::PeerDisconnected(..))) => { seen = true; break; }
+                            Ok(Some(_)) => {}
+                            _ => break,
+                        }
+                    }
+                    if !seen { sim.broken = true; }
+                    settle().await;
+                    rc.ended = true;
+                }
+                _ => {}      // a loop that is kept busy takes no grant; it has no task to finish
+            }
+        }
+        sim.quiesce().await;
+        let mut g = sim.drain(); g.sort_by_key(|x| (x.0, x.1));
+        let t = sim.tasks();
+        st.grants += g.len();
+        obs.push(g.len() as i64); for (c, k, r) in &g { obs.push(*c as i64); obs.push(*k as i64); obs.push(*r as i64); }
+        obs.push(t.len() as i64); for (c, r) in &t { obs.push(*c as i64); obs.push(*r as i64); }
+    }
+    sim.shutdown().await;
+    if let Some(rc) = real.as_mut() { let _ = &rc.remote_events; let _ = &rc.q_rx; }
+    let mut c = conn_case(kind, max, evs, obs, &st, sim.broken);
+    c.coq = c.coq.replacen("CConn", "CLoop", 1);
+    c
+}
+
 fn alphabet(small: bool) -> Vec<Msg> {
     let mut a = vec![];
     let room_sets: Vec<Vec<u64>> = if small { vec![vec![1], vec![1, 2]] } else { vec![vec![1], vec![2], vec![1, 2]] };
@@ -403,6 +528,17 @@ async fn main() {
     out.push(run_fixed("directed-new-reply-channel", 1, &[Request(1, vec![5], 0), Request(2, vec![5, 6], 0), Request(2, vec![], 1), Unlock(1, 5), Unlock(2, 6), Unlock(2, 5)]).await);
     out.push(run_fixed("directed-dead-channel", 2, &[Request(1, vec![5], 0), Request(2, vec![5, 6, 7], 0), Drop(2, 0), Request(3, vec![5, 6], 0), Unlock(1, 5), Request(2, vec![7], 0), Request(2, vec![7], 1), Unlock(3, 6), Unlock(3, 5), Unlock(2, 7)]).await);
     out.push(run_fixed("directed-rotation", 1, &[Request(1, vec![1, 2, 3], 0), Request(2, vec![1, 2, 3], 0), Request(3, vec![3, 2, 1], 0), Unlock(1, 3), Unlock(2, 3), Unlock(3, 1), Unlock(1, 2), Unlock(2, 2), Unlock(3, 2), Unlock(1, 1), Unlock(2, 1), Unlock(3, 3)]).await);
+    // K3: starvation. limit 2; 1 waits for room 5; 2 and 3 keep re-requesting the room they are synchronising (6 and 5),
+    // 6 is always released before 5: every release comes from the holder, 1 keeps its channel and is never served
+    {
+        let mut tr = vec![Request(3, vec![5], 0), Request(2, vec![6], 0), Request(1, vec![5], 0), Request(2, vec![6], 0), Request(3, vec![5], 0)];
+        for _ in 0..11 { tr.extend([Unlock(2, 6), Request(2, vec![6], 0), Unlock(3, 5), Request(3, vec![5], 0)]); }
+        out.push(run_fixed("directed-K3-starvation", 2, &tr).await);
+        // the same pattern, short: the waiter is demoted but the bound is not exceeded
+        let mut tr = vec![Request(3, vec![5], 0), Request(2, vec![6], 0), Request(1, vec![5], 0), Request(2, vec![6], 0), Request(3, vec![5], 0)];
+        tr.extend([Unlock(2, 6), Unlock(3, 5), Unlock(3, 5), Unlock(2, 6), Unlock(1, 5)]);
+        out.push(run_fixed("directed-K3-demoted-then-served", 2, &tr).await);
+    }
     out.push(run_fixed("directed-release-not-held", 2, &[Unlock(1, 5), Request(1, vec![5], 0), Unlock(2, 6), Unlock(1, 5), Unlock(1, 5), Request(2, vec![5], 0)]).await);
 
     // ---- exhaustive enumeration over a small alphabet (the state space for small bounds is finite) ----
@@ -449,6 +585,37 @@ async fn main() {
             evs.extend([Finish(1, 1), Finish(2, 1), Finish(2, 2), Request(9, vec![1]), Take(9), Finish(9, 1)]);
             out.push(run_conn_fixed(&sh, "conn-exhaustive", 1, &evs).await);
         }
+    }
+    {
+        use CEv::*;
+        // a grant waits in the lock channel of the real loop when the connection ends: released (2487a5d)
+        out.push(run_loop_fixed(&sh, "loop-directed-grant-waiting-at-end", 2, &[Request(1, vec![5]), End(1), Request(9, vec![5]), Take(9), Finish(9, 5)]).await);
+        // one room granted, one still pending: the drain frees the first, the second must NOT be sent into the closing channel
+        out.push(run_loop_fixed(&sh, "loop-directed-pending-room-at-end", 1, &[Request(1, vec![5, 6]), End(1), Request(9, vec![6]), Take(9), Finish(9, 6), Request(9, vec![5]), Take(9), Finish(9, 5)]).await);
+        out.push(run_loop_fixed(&sh, "loop-directed-two-grants-waiting", 2, &[Request(2, vec![5]), Take(2), Request(1, vec![5]), Request(1, vec![6, 7]), Finish(2, 5), End(1), Request(9, vec![5]), Take(9), Finish(9, 5), Request(9, vec![6]), Take(9), Finish(9, 6), Request(9, vec![7]), Take(9), Finish(9, 7)]).await);
+        out.push(run_loop_fixed(&sh, "loop-directed-others-waiting-at-end", 1, &[Request(1, vec![5, 6, 7]), Request(2, vec![7, 6]), End(1), Take(2), Finish(2, 6), Take(2), Finish(2, 7), Request(9, vec![5]), Take(9), Finish(9, 5), Request(9, vec![6])]).await);
+    }
+    let nl = scale(40, 400);
+    for _ in 0..nl {
+        let mut r = rng.fork();
+        let max = 1 + r.below(2) as usize;
+        let nrooms = 2 + r.below(2);
+        let mut evs = vec![];
+        let mut held2: Vec<u64> = vec![];
+        for _ in 0..(2 + r.below(6)) {
+            match r.below(10) {
+                0..=4 => evs.push(CEv::Request(1, gen_rooms(&mut r, nrooms))),
+                5..=6 => evs.push(CEv::Request(2, gen_rooms(&mut r, nrooms))),
+                7 => { evs.push(CEv::Take(2)); held2.push(0); }
+                _ => { let room = 1 + r.below(nrooms); evs.push(CEv::Finish(2, room)); }
+            }
+        }
+        evs.push(CEv::End(1));
+        for room in 1..=nrooms { evs.push(CEv::Finish(2, room)); }
+        evs.push(CEv::End(2));
+        for room in 1..=nrooms { evs.extend([CEv::Request(9, vec![room]), CEv::Take(9), CEv::Finish(9, room)]); }
+        let _ = held2;
+        out.push(run_loop_fixed(&sh, "loop-generated", max, &evs).await);
     }
     let nc = scale(200, 2000);
     for i in 0..nc {
